@@ -49,7 +49,8 @@ def generate(rng, tier, shard, nshards):
     for gi in range(n):
         srn = ["Bool", "Rat", "Bool"][gi % 3]
         R = gops.SR[srn]
-        g = fam.rand_cfg(rng, R, shape="any" if gi % 3 else "leftcycle", nN=rng.choice([2, 3, 3, 4]),
+        g = fam.rand_cfg(rng, R, shape="chord", nN=3) if gi % 5 == 4 else \
+            fam.rand_cfg(rng, R, shape="any" if gi % 3 else "leftcycle", nN=rng.choice([2, 3, 3, 4]),
                          nrules=rng.choice([3, 5, 6]) if gi % 3 else rng.choice([1, 2, 3]))
         if gi % 2 == 0:
             g = fam.ensure_language(g, rng)
